@@ -834,6 +834,16 @@ def mc_uci(work, rep, tier, liveness):
         vlib.need_tlc_ok(r, "Uci back-pressure liveness")
         rep.add_tlc(r)
         info["backpressure_liveness"] = {"states": r.distinct, "constants": lb, "wall_s": round(r.wall, 1)}
+    if not quick:
+        # beyond the exhaustive bound: random behaviours of a larger configuration (3 searches, 6 commands, depth 3,
+        # two output slots), every invariant evaluated in every state
+        big = dict(base, MaxCmds=6, NS=3, MaxDepth=3, OutCap=2)
+        cfg = vlib.cfg_text(spec="Spec", constants=big, invariants=UCI_INV)
+        r = vlib.tlc(work, "Uci", cfg, workers=vlib.NCPU, timeout=1200, heap="8g", name="Uci-simulate-big",
+                     simulate="num=%d" % 20000, extra=["-depth", "120", "-seed", str(seed)])
+        if r.error is not None and "violated" in (r.error or ""):
+            raise Inconclusive("Uci.tla (simulation of a larger configuration): %s" % r.error)
+        info["simulated_larger_configuration"] = {"constants": big, "behaviours_per_worker": 20000, "states": r.generated, "wall_s": round(r.wall, 1)}
     # non-vacuity: the deviations must be rejected
     dev = [("IdGuard", "FALSE", ["NoStaleBest"], []), ("ShutdownWaits", "FALSE", ["NoPanic"], []),
            ("StopOnOk", "FALSE", [], ["StopAnswered"]), ("TimerInLoop", "FALSE", [], ["StopAnswered"])]
